@@ -282,7 +282,9 @@ let () =
            let raw = use WUnsigned (function NumU u -> let s = wrap32 u in if s = 0L then " E-1.1" else Printf.sprintf " E0.0 L%Lu" s | _ -> " ?") in
            let ph = use WSigned (function NumI i -> Printf.sprintf " E0.0 L%s" (z_sdec i) | _ -> " ?") in
            let bit = use WSigned (function NumI i -> let b = sx32 i in
-                                   if b < 0L then " E-1.5" else if Int64.add b 0L > 63L then " E-1.6" else Printf.sprintf " E0.0 L%Ld" b | _ -> " ?") in
+                                   (* bitnum + numbits - 1 in int arithmetic: INT_MAX + 1 is undefined in C *)
+                                   if b = 2147483647L then (ub_marker := true; " UB")
+                                   else if b < 0L then " E-1.5" else if b > 63L then " E-1.6" else Printf.sprintf " E0.0 L%Ld" b | _ -> " ?") in
            let lin = use WComplex (function NumC (re, im) -> Printf.sprintf " E0.0 L%Lx:%Lx:%d" (bits re) (bits im) (if im <> 0.0 then 1 else 0) | _ -> " ?") in
            let win = use WFloat (function NumF re -> Printf.sprintf " E0.0 L%Lx" (bits re) | _ -> " ?") in
            Printf.printf "%s%s%s%s%s\t%s\n" raw ph bit lin win (if spec_is_number tok then "NUM" else "FIELD")
